@@ -153,7 +153,7 @@ func (c *RetryClient) publish(ctx context.Context, cli *BaseClient, message *Mes
 			default:
 			}
 			if retryErr, ok := err.(ErrorWithRetry); ok {
-				c.retryQueue = append(c.retryQueue, retryErr.Retry)
+				c.retryQueue = append(c.retryQueue, c.retryWithTimeout(retryErr.Retry))
 				c.newRetryByError = true
 			}
 		}
@@ -192,7 +192,7 @@ func (c *RetryClient) subscribe(ctx context.Context, retry bool, cli *BaseClient
 			default:
 			}
 			if retryErr, ok := err.(ErrorWithRetry); ok {
-				c.retryQueue = append(c.retryQueue, retryErr.Retry)
+				c.retryQueue = append(c.retryQueue, c.retryWithTimeout(retryErr.Retry))
 				c.newRetryByError = true
 			}
 		}
@@ -222,7 +222,7 @@ func (c *RetryClient) unsubscribe(ctx context.Context, cli *BaseClient, topics .
 			default:
 			}
 			if retryErr, ok := err.(ErrorWithRetry); ok {
-				c.retryQueue = append(c.retryQueue, retryErr.Retry)
+				c.retryQueue = append(c.retryQueue, c.retryWithTimeout(retryErr.Retry))
 				c.newRetryByError = true
 			}
 		}
@@ -370,6 +370,15 @@ func (c *RetryClient) requestContext(ctx context.Context) (context.Context, func
 	return &requestContext{ctx2}, cancel
 }
 
+// retryWithTimeout applies ResponseTimeout to a retransmission as to a first transmission.
+func (c *RetryClient) retryWithTimeout(retry retryFn) retryFn {
+	return func(ctx context.Context, cli *BaseClient) error {
+		ctx2, cancel := c.requestContext(ctx)
+		defer cancel()
+		return retry(ctx2, cli)
+	}
+}
+
 type requestContext struct {
 	context.Context
 }
@@ -456,8 +465,10 @@ func (c *RetryClient) Retry(ctx context.Context) {
 
 			err := retry(ctx, cli)
 			if retryErr, ok := err.(ErrorWithRetry); ok {
-				c.retryQueue = append(c.retryQueue, retryErr.Retry)
+				c.retryQueue = append(c.retryQueue, c.retryWithTimeout(retryErr.Retry))
 				c.retryQueue = append(c.retryQueue, oldRetryQueue[i+1:]...)
+				c.onError(err)
+				c.newRetryByError = true
 				break
 			}
 		}
